@@ -19,7 +19,7 @@ def repl_config(run, replay, thorough):
         run.tlc("ReplConfig.tla", "mc_rc.cfg", workers=4, timeout=600,
                 cfg_text=RC.format(docs=3, steps=7 if thorough else 6, body="VIEW view\nINVARIANTS OnlyConfigured\nPROPERTIES RestartInvisible"), label="MC_ReplConfig")
         src = os.path.join(run.tmp, "replcfg.ndjson")
-        run.tlc("ReplConfig_gen.tla", "gen_rc.cfg", mode="simulate", workers=1, sim="num=%d" % (150 if thorough else 40), extra=["-depth", "7"], timeout=600,
+        run.tlc("ReplConfig_gen.tla", "gen_rc.cfg", mode="simulate", workers=1, sim="num=%d" % (20000 if thorough else 4000), extra=["-depth", "7"], timeout=600,
                 env={"VERIF_OUT": src}, cfg_text=RC.format(docs=4, steps=7, body="ACTION_CONSTRAINT ExportInteresting"), label="GEN_ReplConfig")
         if not os.path.exists(src):
             raise vlib.Infra("no replicator-configuration behaviours exported")
